@@ -4,6 +4,7 @@ package bed
 
 import (
 	"bytes"
+	"fmt"
 	"strconv"
 )
 
@@ -133,4 +134,46 @@ func thmRoundTrip(b *BED) {
 	//@ assert b.N > 10 ==> forall k int :: 0 <= k && k < len(b.BlockSizes) ==> g.BlockSizes[k] == b.BlockSizes[k]
 	//@ assert b.N > 11 ==> forall k int :: 0 <= k && k < len(b.BlockStarts) ==> g.BlockStarts[k] == b.BlockStarts[k]
 	_, _, _, _, _, _ = g, err, e8, e9, c1, c2
+}
+
+//@ theorem C06.crlf
+//@   props C06
+//@   let bcX := (splitN(x, 9) > 9 && splitF(x, 9, 9) != "") ? atoi(splitF(x, 9, 9)) : 0
+//@   let okX := 3 <= splitN(x, 9) && splitN(x, 9) <= 12 && (true) && atoiOK(splitF(x, 9, 1)) && atoiOK(splitF(x, 9, 2)) &&
+//@             (splitN(x, 9) > 4 && splitF(x, 9, 4) != "" ==> atoiOK(splitF(x, 9, 4))) &&
+//@             (splitN(x, 9) > 5 ==> splitF(x, 9, 5) == "" || splitF(x, 9, 5) == "+" || splitF(x, 9, 5) == "-" || splitF(x, 9, 5) == ".") &&
+//@             (splitN(x, 9) > 6 && splitF(x, 9, 6) != "" ==> atoiOK(splitF(x, 9, 6))) && (splitN(x, 9) > 7 && splitF(x, 9, 7) != "" ==> atoiOK(splitF(x, 9, 7))) &&
+//@             (splitN(x, 9) > 8 && splitF(x, 9, 8) != "" ==> splitN(splitF(x, 9, 8), ',') == 3 && puintOK(splitF(splitF(x, 9, 8), ',', 0)) && puintOK(splitF(splitF(x, 9, 8), ',', 1)) && puintOK(splitF(splitF(x, 9, 8), ',', 2))) &&
+//@             (splitN(x, 9) > 9 && splitF(x, 9, 9) != "" ==> atoiOK(splitF(x, 9, 9))) &&
+//@             (splitN(x, 9) > 10 && splitF(x, 9, 10) != "" ==> forall k int :: 0 <= k && k < splitN(splitF(x, 9, 10), ',') ==> atoiOK(splitF(splitF(x, 9, 10), ',', k))) &&
+//@             (splitN(x, 9) > 11 && splitF(x, 9, 11) != "" ==> forall k int :: 0 <= k && k < splitN(splitF(x, 9, 11), ',') ==> atoiOK(splitF(splitF(x, 9, 11), ',', k))) &&
+//@             ((splitN(x, 9) > 10 && splitF(x, 9, 10) != "") ? splitN(splitF(x, 9, 10), ',') : 0) == bcX && ((splitN(x, 9) > 11 && splitF(x, 9, 11) != "") ? splitN(splitF(x, 9, 11), ',') : 0) == bcX
+//@   requires okX
+//@   requires len(x) > 0 && x[0] != '#'
+//@   requires forall j int :: 0 <= j && j < len(x) ==> x[j] != 10 && x[j] != 13
+// A line free of CR/LF (not blank, not a comment) terminated with LF and the
+// same line terminated with CRLF are seen by the reader as the same line (one
+// CR before the terminator is dropped), so a line that is accepted in one
+// convention (completeness condition okL of reader.read) is accepted in the
+// other and yields the same record.
+func thmCRLF(x string) {
+	b1 := &bytes.Buffer{}
+	fmt.Fprintf(b1, "%s\n", x)
+	b2 := &bytes.Buffer{}
+	fmt.Fprintf(b2, "%s\r\n", x)
+	r1 := newReader(b1)
+	r2 := newReader(b2)
+	g1, err1 := r1.read()
+	g2, err2 := r2.read()
+	//@ assert !ioErr(err1) && !ioErr(err2)
+	//@ assert len(line1) == len(x) && len(line2) == len(x)
+	//@ assert line1 == x && line2 == x
+	//@ assert err1 == nil && err2 == nil && g1 != nil && g2 != nil
+	//@ assert g1.N == g2.N && g1.Chrom == g2.Chrom && g1.ChromStart == g2.ChromStart && g1.ChromEnd == g2.ChromEnd
+	//@ assert g1.Name == g2.Name && g1.Score == g2.Score && g1.Strand == g2.Strand
+	//@ assert g1.ThickStart == g2.ThickStart && g1.ThickEnd == g2.ThickEnd && g1.BlockCount == g2.BlockCount
+	//@ assert forall k int :: 0 <= k && k < 3 ==> g1.ItemRGB[k] == g2.ItemRGB[k]
+	//@ assert len(g1.BlockSizes) == len(g2.BlockSizes) && forall k int :: 0 <= k && k < len(g1.BlockSizes) ==> g1.BlockSizes[k] == g2.BlockSizes[k]
+	//@ assert len(g1.BlockStarts) == len(g2.BlockStarts) && forall k int :: 0 <= k && k < len(g1.BlockStarts) ==> g1.BlockStarts[k] == g2.BlockStarts[k]
+	_, _, _, _ = g1, err1, g2, err2
 }
